@@ -1194,6 +1194,59 @@ func genWrap(r *common.Rand) {
 var ctypeVariants = []string{"application/json", "text/plain", "application/vnd.oci.image.index.v1+json; charset=utf-8",
 	"application/vnd.oci.image.index.v1+json;charset=utf-8", "Application/vnd.oci.image.index.v1+json", "application/vnd.oci.image.manifest.v1+json"}
 
+// pingCase: pingReferrers against one answer of the referrers endpoint.
+func pingCase(state string, status int, code, ctype string) {
+	id := run.NewID()
+	reg := fakereg.New(host)
+	reg.Decide = func(*fakereg.Exchange) fakereg.Decision {
+		return fakereg.Decision{Status: status, ErrorCode: code, CType: ctype}
+	}
+	r := &remote.Repository{Reference: registry.Reference{Registry: host, Repository: "repo"}, PlainHTTP: true, Client: reg.Client()}
+	switch state {
+	case "S":
+		r.SetReferrersCapability(true)
+	case "N":
+		r.SetReferrersCapability(false)
+	}
+	ok, err := remote.VerifPingReferrers(context.Background(), r)
+	after := []string{"U", "S", "N"}[remote.VerifReferrersState(r)]
+	res := "0"
+	if err != nil {
+		res = "E"
+	} else if ok {
+		res = "1"
+	}
+	sent := ocispec.MediaTypeImageIndex
+	if ctype != "" {
+		sent = ctype
+	}
+	nu := "0"
+	if status == 404 && code == "NAME_UNKNOWN" {
+		nu = "1"
+	}
+	st := status
+	if st == 0 {
+		st = 200
+	}
+	run.Case(id, fmt.Sprintf("P %s %d %s %s", state, st, nu, common.Hex(sent)), fmt.Sprintf("%s %s %d", res, after, len(reg.Log)))
+	run.Count("ping_" + state + "_" + res)
+	run.Nontrivial(fmt.Sprintf("P%s/%d/%s/%s", state, status, code, ctype))
+	rep := map[string]any{"op": "ping", "state": state, "status": status, "code": code, "ctype": ctype}
+	// oracle: a known capability is never changed nor re-asked; a plain index answer means supported
+	if state != "U" && (after != state || len(reg.Log) != 0 || err != nil || ok != (state == "S")) {
+		run.OracleFail(id, "state-changed", fmt.Sprintf("ping with capability %s: answer %v, %v, %d requests, capability %s afterwards", state, ok, err, len(reg.Log), after), rep)
+	}
+	if state == "U" && st == 200 && ctype == "" && (!ok || err != nil || after != "S") {
+		run.OracleFail(id, "state-not-set", fmt.Sprintf("ping of a registry with referrers API: %v, %v, capability %s", ok, err, after), rep)
+	}
+	if state == "U" && st == 200 && (ctype == "application/json" || ctype == "text/plain" || ctype == ocispec.MediaTypeImageManifest) && (ok || err != nil || after != "N") {
+		run.OracleFail(id, "ping-wrong-content-type", fmt.Sprintf("ping answered by a %s document: %v, %v, capability %s", ctype, ok, err, after), rep)
+	}
+	if state == "U" && st == 404 && code != "NAME_UNKNOWN" && (ok || err != nil || after != "N") {
+		run.OracleFail(id, "state-not-set", fmt.Sprintf("ping of a registry without referrers API: %v, %v, capability %s", ok, err, after), rep)
+	}
+}
+
 // ---------- referrers through the tag schema ----------
 
 // TagSchema is one run of Referrers against a registry without referrers API.
@@ -1519,6 +1572,9 @@ func replay(cases []map[string]string) {
 			l, _ := strconv.ParseInt(c["limit"], 10, 64)
 			s, _ := strconv.ParseInt(c["size"], 10, 64)
 			sizeCase(l, s)
+		case "ping":
+			st, _ := strconv.Atoi(c["status"])
+			pingCase(c["state"], st, c["code"], c["ctype"])
 		case "regpage":
 			var rp RegPage
 			raw := map[string]json.RawMessage{}
@@ -1642,6 +1698,18 @@ func main() {
 			mx = run.Scale(40, 90)
 		}
 		listCase(genScenario(r, mx))
+	}
+	// pingReferrers
+	for _, st := range []string{"U", "S", "N"} {
+		for _, status := range []int{0, 404, 500, 401, 403} {
+			for _, code := range []string{"", "NAME_UNKNOWN", "UNSUPPORTED"} {
+				for _, ct := range append([]string{""}, ctypeVariants...) {
+					if (status == 0) == (code == "") || status == 404 {
+						pingCase(st, status, code, ct)
+					}
+				}
+			}
+		}
 	}
 	// Repository.Referrers with capability detection
 	for i := 0; i < run.Scale(1500, 40000); i++ {
